@@ -45,6 +45,9 @@ CHECKS = {
  "C13": ("model_checking", "exhaustive enumeration of outbound publish sequences x client limits, and of boundary probes over every validator-accepted configuration of a grid, on the real in-process broker",
   "Outbound: client Maximum Packet Size {none,30,40} x Topic Alias Maximum {0,1,2} x subscription id x fresh/resumed session x every publish sequence of length 3 (quick) / 4 (thorough) over 3 topics with payload lengths sweeping the limit; every received packet is measured on the wire and resolved through a client-side alias table. Inbound: all 96 validator-accepted configurations of the grid; alias values {0,1,max-1,max,max+1,65535} with topic, empty topic and rebinding; r and r+1 outstanding QoS2 publishes; packets of exactly max_packet_size and +1; DISCONNECT reason codes; no panic; broker still serves afterwards.",
   "Default schedule. Receive-maximum probes are skipped for r=65535 and size probes for max_packet_size 2^28-1 (too large to generate). Trusted: refmqtt (wire sizes are measured, not computed), vsched.", "DESIGN.md 8/C13"),
+ "C14": ("model_checking", "exhaustive enumeration of plugin orders x a trigger script firing all 19 hook kinds, and of the verdict table x versions x deciding-plugin position, on the real in-process broker with recording plugins",
+  "All 15 non-empty permutations of subsets of three recording plugins as plugin_order: per hook kind the call log must be enter(order) base exit(reverse), every exposed wrapper installed, Load/Unload once in order. Every verdict of the table (basic/enhanced auth, OnSubscribe, OnUnsubscribe, OnMsgArrived, OnWillPublish) x v3.1.1/v5 x deciding plugin alone/inner/outer: wire acks, ClientService/SubscriptionService/RetainedService contents and what an independent '#' subscriber receives must equal the verdict. Multi-round enhanced authentication is driven in-package through the real connect state machine.",
+  "Default schedule. The multi-round AUTH exchange cannot be completed over the wire on the unchanged broker (known finding), so its verdicts are checked through an in-package accessor (VerifRunConnect). Trusted: vsched, refmqtt, the recording plugins.", "DESIGN.md 8/C14"),
 }
 NA_DEFAULT = "check not built yet in this session (planned design in DESIGN.md section 8)"
 
